@@ -35,6 +35,7 @@ class Scope(list[Any]):
     parameters: frozenset[str]
     lexical: bool
     supplied: set[int]
+    home: "tuple[Scope, ...] | None"
 
     def __init__(
         self, items: Iterable[Any] = (), *, owner: "NixExpression | None" = None
@@ -54,6 +55,10 @@ class Scope(list[Any]):
         # call's argument: their values belong to the call site, not to the
         # function (only defaults see the other parameters).
         self.supplied = set()
+        # For a `with` environment reached through a name (`with e;`): the
+        # chain of the place where that set is written.  Its members' values
+        # see that chain, not the surroundings of the `with`.
+        self.home = None
 
     def _find_binding_index(self, key: str) -> int | None:
         from nix_manipulator.expressions.binding import Binding
